@@ -434,7 +434,8 @@ class Machine:
         if c.startswith('"'):
             return ('str', c)
         if c.startswith('ZeroSized'):
-            return ('closure', c)
+            m = re.match(r'ZeroSized: (\{closure@[^}]*\})', c)
+            return ('adt', m.group(1), 0, []) if m else ('closure', c)
         if re.fullmatch(r"'.'", c):
             return ('i', T.iconst(ord(c[1])))
         std = {'f64::INFINITY': ('f', T.finf()), 'f64::NEG_INFINITY': ('f', T.fninf()), 'f64::NAN': ('f', T.fnan()),
@@ -534,6 +535,8 @@ class Machine:
                     return
                 dest, nxt = fr['ret']
                 st['frames'].pop()
+                if fr.get('wrap') is not None:
+                    rv = fr['wrap'](rv)
                 self.put(st, fid - 1, dest, rv)
                 st['frames'][fid - 1]['bb'] = nxt
                 continue
@@ -680,6 +683,10 @@ class Machine:
         if rhs.startswith(('copy ', 'move ', 'const ')):
             return self.operand(st, fid, rhs)
         if rhs.startswith('{closure@'):
+            m = re.match(r'(\{closure@[^}]*\})(?: \{ (.*) \})?$', rhs)
+            if m:
+                fields = [self.operand(st, fid, a.split(': ', 1)[1]) for a in split_top(m.group(2))] if m.group(2) else []
+                return ('adt', m.group(1), 0, fields)
             return ('closure', rhs)
         if rhs == '()':
             return ('unit',)
@@ -729,14 +736,50 @@ class Machine:
                 return ('b', T.not_(T.mk('beq', a[1], b[1])))
         raise Stuck('binop %s on %s, %s' % (op, show(a), show(b)))
 
+    # ---- closures and thread-local cells
+    def closure_fn(self, clos):
+        """the MIR function implementing a closure value ('adt', '{closure@LOC}', 0, captures)"""
+        if not (clos[0] == 'adt' and str(clos[1]).startswith('{closure@')):
+            raise Stuck('not a closure: %s' % show(clos))
+        cands = [f for f in self.fns if f.args and f.args[0][1].lstrip('&').replace('mut ', '').strip() == clos[1] and '{closure#' in f.name]
+        if len(cands) != 1:
+            raise Stuck('closure body for %s: %d candidates' % (clos[1], len(cands)))
+        return cands[0]
+
+    def push_closure(self, st, fid, clos, args, wrap=None):
+        fn = self.closure_fn(clos)
+        first = clos
+        if fn.args[0][1].strip().startswith('&'):
+            self.fresh_n += 1
+            tmp = '_clos%d' % self.fresh_n
+            st['frames'][fid]['locals'][tmp] = clos
+            first = ('ref', fid, tmp, ())
+        return ('push', fn, [first] + list(args), wrap)
+
+    def symbolic_of_type(self, ty, base):
+        ty = ty.strip()
+        if ty in ('f64', 'f32'):
+            return ('f', self.fresh(base, 'f'))
+        if ty in ('usize', 'u64', 'u32', 'u16', 'u8', 'isize', 'i64', 'i32'):
+            return ('i', self.fresh(base, 'i'))
+        if ty == 'bool':
+            return ('b', self.fresh(base, 'b'))
+        m = re.match(r'(?:std::cell::|core::cell::)?Cell<(.*)>$', ty)
+        if m:
+            return ('adt', 'Cell', 0, [self.symbolic_of_type(m.group(1), base)])
+        if ty.startswith('(') and ty.endswith(')'):
+            return ('adt', 'tuple', 0, [self.symbolic_of_type(t, base) for t in split_top(ty[1:-1])])
+        raise Stuck('cannot build an arbitrary value of type %s' % ty)
+
     # ---- calls
     def call(self, st, fid, callee, argv, dest, nxt):
         self.calls_log.append(callee)
         r = self.models.dispatch(self, st, fid, callee, argv)
         if r is not None:
             if isinstance(r, tuple) and r and r[0] == 'push':
-                _, fn, args = r
-                st['frames'].append({'fn': fn, 'locals': {('_%d' % (i + 1)): v for i, v in enumerate(args)}, 'bb': 'bb0', 'ret': (dest, nxt)})
+                fn, args = r[1], r[2]
+                wrap = r[3] if len(r) > 3 else None
+                st['frames'].append({'fn': fn, 'locals': {('_%d' % (i + 1)): v for i, v in enumerate(args)}, 'bb': 'bb0', 'ret': (dest, nxt), 'wrap': wrap})
                 self.touched.add(fn.name)
                 if len(st['frames']) > 60:
                     raise Stuck('call depth')
@@ -746,7 +789,7 @@ class Machine:
 
 
 def copy_state(st):
-    return {'frames': [{'fn': f['fn'], 'locals': dict(f['locals']), 'bb': f['bb'], 'ret': f['ret'], 'visits': dict(f.get('visits', {}))} for f in st['frames']],
+    return {'frames': [{'fn': f['fn'], 'locals': dict(f['locals']), 'bb': f['bb'], 'ret': f['ret'], 'visits': dict(f.get('visits', {})), 'wrap': f.get('wrap')} for f in st['frames']],
             'pc': list(st['pc'])}
 
 
